@@ -48,6 +48,18 @@ Print Assumptions C11_no_o2o.
 
 (* the where-clause dedicated to the counterpart, else the default one, is the one attached *)
 Theorem C11_where : forall k f ty d c,
-    env_get (trait_env (view_type k f ty d) c) "where_clause" = print_where (find_for wa_ty (fun _ => true) (d_where (dt_get_attrs d)) ty).
+    env_get (trait_env (view_type k f ty d) c) "where_clause" =
+    print_where_all (dt_where d) (find_for wa_ty (fun _ => true) (d_where (dt_get_attrs d)) ty).
 Proof. exact where_clause_choice. Qed.
 Print Assumptions C11_where.
+
+(* the deriving type's own where-predicates (struct S<T> where T: Clone) are carried into every impl, first and in order,
+   followed by the predicates of the applicable #[where_clause]; without them the clause is what it was (fix F-11c) *)
+Theorem C11_own_where : forall own w, own <> [] ->
+    exists rest, print_where_all own w = TIdent "where" :: join_preds own ++ rest /\
+                 rest = match w with Some a => [comma] ++ join_preds (wa_preds a) | None => [] end.
+Proof. exact own_where_carried. Qed.
+Print Assumptions C11_own_where.
+Theorem C11_no_own_where : forall w, print_where_all [] w = print_where w.
+Proof. exact no_own_where. Qed.
+Print Assumptions C11_no_own_where.
